@@ -93,7 +93,8 @@ def run(ctx: Ctx, rep: Report, tier: str):
     em = p.cls("EventManager")
     du = em.methods["_do_unsafe"]
     srcs = {"events": False, "queue": False}
-    for lp in ctx.own_nodes(du):
+    from sa.util import with_private_helpers
+    for lp in [x for ff in with_private_helpers(ctx, du) for x in ctx.own_nodes(ff)]:
         if isinstance(lp, ast.For):
             has = any(isinstance(x, ast.Call) and pat.match("self._process_event($$$)", x) is not None for x in ast.walk(lp))
             if "self.provider.events()" in ast.unparse(lp.iter) and has:
@@ -226,3 +227,39 @@ def run(ctx: Ctx, rep: Report, tier: str):
     from rules.common import kids_sync_path_rebased
     rep.rule("C01.R10", "a renamed folder re-bases each child's last-synced path from the child's own old last-synced path (C04.R4)", 1)
     kids_sync_path_rebased(ctx, rep, "C01.R10")
+    from rules.common import alias as _alias
+    from rules.C17 import C17 as _C17
+    _alias(rep, ["C17.A6", "C17.A5", "C17.A7"], "C01.R11", "change stamps strictly increase (C17.A6): a second edit in the same clock tick / after a clock step back still outdates the last refresh, so the newest content is the one that is uploaded", 1, lambda: _C17(ctx, rep).a5_a7())
+    from rules.common import event_application_writes_through
+    rep.rule("C01.R12", "every field of a provider event reaches the state of the side it came from (C14.W11): nothing the engine is told is dropped or booked on the other side", 12)
+    event_application_writes_through(ctx, rep, "C01.R12")
+    rep.rule("C01.R13", "bounded work per entry: inside sync() a side's turn ends early only (a) because that side needs no sync, (b) after finished(side, sync), or (c) because the "
+             "OTHER side still has a pending change that will be handled first - never by silently skipping a side that needs work", 4)
+    sf = M.methods["sync"]
+    gs = ctx.cfg(sf)
+    syn = sf.params()[1]
+    loops = [n for n in gs.nodes if n.kind == "iter" and isinstance(n.ast.target, ast.Name)]
+    emb = [n for n in gs.nodes if node_has_call(n, "self.embrace_change($$$)")]
+    if not loops or not emb:
+        raise AnalysisError("SyncManager.sync: side loop / embrace_change call not found")
+    lp = loops[0]
+    sv = lp.ast.target.id
+    oth = {n.targets[0].id for n in ctx.own_nodes(sf) if isinstance(n, ast.Assign) and isinstance(n.targets[0], ast.Name) and
+           (pat.match("OTHER_SIDE[%s]" % sv, n.value) is not None or pat.match("other_side(%s)" % sv, n.value) is not None or pat.match("1 - %s" % sv, n.value) is not None)}
+    oth_txt = ["%s[%s]" % (syn, o) for o in oth] + ["%s[OTHER_SIDE[%s]]" % (syn, sv), "%s[other_side(%s)]" % (syn, sv)]
+    body = [b for (b, l) in gs.succ[lp.id] if l == "T"]
+    after_emb = gs.reachable([e.id for e in emb], follow=NORMAL)
+    fin = lambda n: node_has_call(n, "self.finished(%s, %s)" % (sv, syn))   # noqa: E731
+    k13 = 0
+    for n in gs.nodes:
+        if n.kind == "stmt" and isinstance(n.ast, (ast.Continue, ast.Break)) and n.id not in after_emb:
+            facts = ctx.facts(sf).facts(n)
+            a_ = fact_in(facts, "%s[%s].needs_sync()" % (syn, sv), False)
+            b_ = gs.reach(body, lambda m, n=n: m is n, avoid=fin, follow=NORMAL, include_src=True) is None
+            c_ = any(pol and any(txt in (o + ".changed", o + ".needs_sync()") for o in oth_txt) for (txt, pol) in facts)
+            k13 += 1
+            rep.check("C01.R13", "sync|early-exit@%d" % k13, ctx.line(sf, n.ast), a_ or b_ or c_, "side needs no sync" if a_ else ("after finished()" if b_ else "deferred to the pending other side"),
+                      "a side's turn is abandoned (`%s`) although the side needs sync, finished() was not called and the other side is not known to be pending (facts %s): "
+                      "the entry stays in the pending set and is picked again and again without progress" % (type(n.ast).__name__.lower(), sorted(facts)))
+    if k13 < 4:
+        raise AnalysisError("SyncManager.sync: only %d early exits found before embrace_change (expected >= 4)" % k13)
